@@ -150,9 +150,27 @@ def se_unb_job():
                harness=H_SE_UNB, enforce=False, loop_contracts=True, aux_tu=C15.TU, stubs=C15.POOL_STUBS + SE_STUBS, opaque=('opensmt::LASolver', 'opensmt::TSolver', 'opensmt::Simplex', 'opensmt::LRAModel', 'opensmt::Tableau', 'opensmt::LABoundStore'),
                defines=('C26_STORE_UNB', 'C26_R'), min_obligations=5, timeout=1200, object_bits=12,
                proves='for an explanation of ANY length: literals and coefficients are stored entry by entry')
+H_PIV_UNB = '''void harness(void) {
+  h_x.x = nondet_u32(); __CPROVER_assume(h_x.x < E_UNDEF);
+  h_n = nondet_int(); __CPROVER_assume(h_n >= 0 && h_n <= 1000000000);
+  g_k = nondet_int(); __CPROVER_assume(g_k >= 0 && g_k < h_n);
+  wf_term(&h_cell); h_cell_under = nondet_bool(); h_cell_over = nondet_bool(); h_lower = nondet_bool();
+  g_ok = 0; g_prev_found = E_UNDEF; __osmt_thrown = 0;
+  struct LVRef r = Simplex__findNonBasicForPivotByBland((struct Simplex *)0, h_x);
+  __CPROVER_assert(!__osmt_thrown, "a basic variable that is out of bounds is handled");
+  if (h_n > 0 && CELL_ELIG) __CPROVER_assert(r.x != E_UNDEF, "if an arbitrary row term has room in the helpful direction, a pivot variable is reported: a conflict is reported only when no row variable can move, for a row of any length");
+  if (r.x != E_UNDEF) __CPROVER_assert(g_ok, "a reported pivot variable was taken from a row term with room in the helpful direction");
+  OSMT_REACH("return");
+}
+'''
+def piv_unb_job(fn='findNonBasicForPivotByBland'):
+    return Job(fn + '.unbounded.R', 'src/tsolvers/lasolver/Simplex.cc', 'opensmt::Simplex::' + fn, tier='R', header='contracts/C26/pivot_unb.h', defines=(('C26_HEUR',) if 'Heuristic' in fn else ()),
+               pre_includes=('stubs/gmp_types.h', 'stubs/std_types.h', 'contracts/C26/types.h'), harness=H_PIV_UNB.replace('Simplex__findNonBasicForPivotByBland', 'Simplex__' + fn), enforce=False, loop_contracts=True, aux_tu=C15.TU,
+               stubs=C15.POOL_STUBS + PIV_STUBS + ('opensmt::isPositive',), opaque=('opensmt::Simplex', 'opensmt::LRAModel', 'opensmt::Tableau', 'opensmt::LABoundStore'), min_obligations=5, timeout=1200, object_bits=12, expected_wrap=C15.WRAP,
+               proves='for a row of ANY length: pivot selection reports no variable exactly when no row term has room in the helpful direction')
 def jobs(tier):
     return [unb_job(), expl_job(4)] + ([expl_job(5)] if tier == 'thorough' else []) + [
-            piv_job('findNonBasicForPivotByBland', 'opensmt::Simplex::findNonBasicForPivotByBland'), piv_job('findNonBasicForPivotByHeuristic', 'opensmt::Simplex::findNonBasicForPivotByHeuristic'), ab_job(), se_job(), se_unb_job()]
+            piv_job('findNonBasicForPivotByBland', 'opensmt::Simplex::findNonBasicForPivotByBland'), piv_job('findNonBasicForPivotByHeuristic', 'opensmt::Simplex::findNonBasicForPivotByHeuristic'), ab_job(), se_job(), se_unb_job(), piv_unb_job(), piv_unb_job('findNonBasicForPivotByHeuristic')]
 def info(tier, results):
     return {'level': 'proof', 'trusted_base': ['clang 14 AST', 'osmt2c lowering', 'CBMC 6.11 (dfcc loop contracts)'],
             'assumptions': ['in the unbounded job FastRational::isZero / isNegative / unary minus / copy on coefficients are by contract and coefficients are machine-word rationals other than INT_MIN (the GMP path is decided by the bounded job)', 'the tableau row of a basic variable x is the equation x = sum a_k*y_k over pairwise different non-basic variables with a_k != 0 (Tableau/Polynomial invariant, not verified)',
